@@ -6,6 +6,7 @@ Addresses are page-relative (`page k + offset`): the harness rebases every addre
 page the allocator obtained, and reports for each page whether the system allocator returned it
 aligned to the page size and disjoint from the earlier pages (the page-oracle assumption).
 -/
+import Desverif.Model.Alloc
 namespace AllocSafe
 
 inductive Ev
@@ -81,5 +82,20 @@ def acceptAll : Shadow → List Ev → Except String Shadow
 
 /-- bytes currently handed out -/
 def liveBytes (s : Shadow) : Nat := (s.live.map Blk.fp).sum
+
+/-! ### Rebasing the model's event stream (absolute model addresses) to page-relative events -/
+
+/-- the page oracle the model is run with when it is compared with an implementation transcript:
+    page k at `(k+1) * P` (page-aligned, pairwise disjoint) -/
+def orcOf (P : Nat) : Nat → Nat := fun k => (k + 1) * P
+
+def locOf (P addr : Nat) : Option (Nat × Nat) :=
+  if P = 0 || addr < P then none else some (addr / P - 1, addr % P)
+
+def ofMEv (P : Nat) : Alloc.MEv → Ev
+  | .page addr len => .page (addr / P - 1) len (addr % P == 0) true
+  | .alloc addr sz al => .alloc (locOf P addr) sz al (al != 0 && addr % al == 0)
+  | .fail sz al => .fail sz al
+  | .free addr sz al => .free (locOf P addr) sz al
 
 end AllocSafe
